@@ -1,7 +1,9 @@
 #!/usr/bin/env python3
 """Development-time self validation (not a registered check): apply each patch under
-seeded/*/patch.diff to /repo's working tree, run the quick check of the property it breaks,
-record whether a VIOLATION is reported, undo the patch.  `--reverts` first (re)creates one seeded
+seeded/*/patch.diff to a scratch worktree of /repo (outside /repo and /verif, removed at the end),
+run the quick check of the property it breaks against that worktree (UFW_REPO), record whether a
+VIOLATION is reported, undo the patch.  /repo itself is never touched, so this can run from a
+`vp run` snapshot while work goes on.  `--reverts` first (re)creates one seeded
 entry per `fix:` commit of /repo (the fix reverted)."""
 import json
 import os
@@ -48,7 +50,22 @@ def main():
         make_reverts()
     only = [a for a in sys.argv[1:] if not a.startswith("--")]
     results = {}
-    assert sh("git -C %s status --porcelain --untracked-files=no" % REPO).stdout.strip() == "", "/repo has local edits"
+    global REPO
+    src = REPO
+    REPO = "/tmp/ufw-selftest-%d" % os.getpid()
+    r = sh("git -C %s worktree add --detach %s HEAD" % (src, REPO))
+    assert r.returncode == 0, r.stdout
+    os.environ["UFW_REPO"] = REPO
+    try:
+        run_all(only, results)
+    finally:
+        sh("git -C %s worktree remove --force %s" % (src, REPO))
+    json.dump(results, open(os.path.join(ROOT, "build", "selftest.json"), "w"), indent=1)
+    caught = sum(1 for v in results.values() if isinstance(v, dict) and all(x.startswith("CAUGHT") for x in v.values()))
+    print("caught %d of %d" % (caught, len(results)))
+
+
+def run_all(only, results):
     for name in sorted(os.listdir(os.path.join(ROOT, "seeded"))):
         d = os.path.join(ROOT, "seeded", name)
         if only and name not in only:
@@ -71,12 +88,11 @@ def main():
             for p in props:
                 c = sh("python3 tools/check.py %s --tier quick" % p, cwd=ROOT)
                 v = [l for l in c.stdout.split("\n") if l.startswith("VIOLATION")]
-                out[p] = ("CAUGHT " + v[0].split("replay=")[1]) if v else "MISSED (exit %d)" % c.returncode
+                out[p] = ("CAUGHT " + ("without input" if v[0].endswith("no-failing-input-found") else "with replay")) if v else "MISSED (exit %d)" % c.returncode
             results[name] = out
         finally:
             sh("git -C %s checkout HEAD -- ." % REPO)
         print(name, results[name], flush=True)
-    json.dump(results, open(os.path.join(ROOT, "build", "selftest.json"), "w"), indent=1)
 
 
 if __name__ == "__main__":
